@@ -214,6 +214,14 @@ func c15(r *core.Run) {
 		signatureRange(r, "R5.signature", t, "Mod", []string{"DivisionByZero"}, ou)
 	}
 	r.Floor("R5.signature", 10)
+	// R7 sign hazards in the fixed-point arithmetic methods (negation of a signed raw value, same-width conversion across signedness)
+	signHazards(r, "R7.signhazard", "c15_sign_hazards", func(recv, method string) bool {
+		switch recv {
+		case "Fix64Value", "UFix64Value", "Fix128Value", "UFix128Value":
+			return true
+		}
+		return false
+	})
 }
 
 // constOf returns the exact string of a package-level constant.
